@@ -3,6 +3,18 @@ import PdshVerif.Dshbak.Model
 /-! decimal facts used by `compress_expands`: a digit string re-prints as itself at its own width -/
 namespace PdshVerif.Dshbak
 
+theorem insertBy_perm {α : Type} (le : α → α → Bool) (x : α) : ∀ (l : List α), (insertBy le x l).Perm (x :: l)
+  | [] => List.Perm.refl _
+  | y :: ys => by
+    simp only [insertBy]
+    split
+    · exact List.Perm.refl _
+    · exact ((insertBy_perm le x ys).cons y).trans (List.Perm.swap x y ys)
+
+theorem stableSort_perm {α : Type} (le : α → α → Bool) : ∀ (l : List α), (stableSort le l).Perm l
+  | [] => List.Perm.refl _
+  | x :: l => (insertBy_perm le x _).trans ((stableSort_perm le l).cons x)
+
 def AllDig (s : Str) : Prop := ∀ c ∈ s, isDig c = true
 
 /-- written the way a number prints: no leading zero, or "0" itself -/
